@@ -90,7 +90,7 @@ AllocErrPreds(c, s, op, r, o) ==
   LET fl0 == s.obs.fl IN <<
   <<"C04", "CleanErrorKind", r.k \in {"err_space", "err_ro"}>>,
   <<"C04", "FailedCallChangesNothing", SameObs(o, s.obs)>>,
-  <<"C03", "ZeroSizedAlwaysSucceeds", ~ZeroReq(op)>>,
+  <<"C03", "ZeroSizedAlwaysSucceeds", ~ZeroReq(op) \/ r.k = "err_ro">>,
   <<"C10", "OptimisticFailsOnlyIfLargestTooSmall", c.kind = "opt" => (fl0 = <<>> \/ fl0[1][2] < NeedMax(op))>>,
   <<"C10", "PessimisticFailsOnlyIfNoneFits", c.kind = "pes" => \A j \in 1..Len(fl0) : fl0[j][2] < NeedMax(op)>>,
   <<"C18", "SucceedsIfFitsNewCapacity", s.truncated => s.obs.alloc + NeedFresh(op, s.obs.alloc) > s.obs.cap>>
@@ -152,7 +152,8 @@ StatePreds(c, s, s2, op, o, mb) == <<
   <<"C10", "FreeListWellFormed", FLShape(c.kind, s.doff, o.fl, o, s2.rewound)>>,
   <<"C10", "FreeListDisjointFromLive", FLvsLive(o.fl, s2.live)>>,
   <<"C13", "FreeListDisjointFromDetached", FLvsLeaked(o.fl, s2.leaked)>>,
-  <<"C20", "DiscardedMonotone", op.k = "clear" \/ o.disc >= s.obs.disc>>,
+  \* (a reopen after a private copy-on-write session goes back to what the file holds: judged by C05)
+  <<"C20", "DiscardedMonotone", op.k \in {"clear", "reopen"} \/ o.disc >= s.obs.disc>>,
   <<"C13", "RefsCountArenaValues", o.refs = 1 + Cardinality({h \in DOMAIN s2.live : s2.live[h].embeds = 1})>>
   >>
 
